@@ -101,8 +101,6 @@ func NewWordList(list []string) (*WordList, error) {
 			if unique[cap] {
 				if cap != w { // w is "polish"
 					delete(unique, cap) // delete won't change what is in range
-				} else {
-					unCapable++
 				}
 			}
 		}
@@ -112,7 +110,9 @@ func NewWordList(list []string) (*WordList, error) {
 	var ourWords []string
 	for w := range unique {
 		ourWords = append(ourWords, w)
-
+		if strings.Title(w) == w { // count only words that are kept
+			unCapable++
+		}
 	}
 
 	if len(list) > len(ourWords) {
